@@ -26,6 +26,14 @@ CHECKS = {
         "design_ref": "DESIGN.md section 3, C03",
         "note": "Trusted: snapshot probes (public API reads). Known finding K4 (uint64 > 2^53) is excluded from the main generator and probed separately.",
     },
+    "C16": {
+        "technique": "property-based testing around code-transition points (+-1 ulp) with bounds / monotonicity / saturation oracles; exhaustive enumeration of every transition for 4..12 bits x 4 classic ranges; differential noisy-SAR(zero noise) vs SAR",
+        "text": "Signals are constructed at generated code-transition voltages with both float neighbours, interior and far-outside values and infinities, "
+                "in float16/32/64, for 4..53 bits and classic or generated ranges; codes are compared as Python integers against [0, 2^bits-1], sortedness "
+                "and saturation; the 4..12-bit x 4-range grid is enumerated completely on every run. Exploration plus a small exhaustive grid.",
+        "design_ref": "DESIGN.md section 3, C16",
+        "note": "NaN not in the domain. Known finding K3 (bits >= 54) excluded from the main generator and probed separately.",
+    },
     "C17": {
         "technique": "metamorphic property-based testing: generated partitions of one exposure interval over generated pipelines of the library's deterministic flux-integrating models; partition-vs-single-readout and interval-scaling relations",
         "text": "For generated intervals, partitions (1..12 readouts), start times, geometries and subsets of the real library models (illumination x3, "
